@@ -661,6 +661,8 @@ def exec_step(env, st, i):
     if op == 'mk':
         m = make_map(st)
         env.put(st['h'], m)
+        if st.get('nomodel'):
+            return []          # very large maps are checked with implementation-level predicates only
         return [(mk_model_op(st['h'], env.meta[st['h']], m, st.get('cov_pixels')), expect_ok(i, 'mk'))]
     if op == 'upd':
         h = st['h']
@@ -690,7 +692,14 @@ def exec_step(env, st, i):
         return [(None, lambda res: [dict(step=i, what='malformed update (%s) was accepted' % st['bad'],
                                          layer='L0', impl='ok', model='RAISED')])]
     if op == 'check':
-        return observe(env, st['h'], i, tuple(st.get('what', ('values', 'cov', 'valid', 'nvalid', 'raw', 'layout', 'paths'))))
+        pairs = observe(env, st['h'], i, tuple(st.get('what', ('values', 'cov', 'valid', 'nvalid', 'raw', 'layout', 'paths'))))
+        if st.get('l1only'):
+            # the property under test does not speak about this map's dense specification (e.g. C19 only
+            # relates two implementation paths): keep the correspondence (L1) comparisons only
+            def wrap(cmp):
+                return lambda res: [m for m in cmp(res) if m['layer'] != 'L0' or 'layout' in m['what']]
+            pairs = [(mop, wrap(cmp)) for mop, cmp in pairs]
+        return pairs
     from harness import ops2
     if op in ops2.STEPS:
         return ops2.STEPS[op](env, st, i)
